@@ -194,6 +194,55 @@ func ruleIndexContracts(r *Run) {
 	r.staleCellIndex(fns)
 }
 
+// isKeysFunc: a one-parameter function that ranges over its (map) parameter by key only and has no other
+// loop: it returns the keys of the map.
+func isKeysFunc(g *Func) bool {
+	if g.Type == nil || g.Type.Params == nil || len(g.Type.Params.List) != 1 || len(g.Type.Params.List[0].Names) != 1 {
+		return false
+	}
+	param := g.Info().Defs[g.Type.Params.List[0].Names[0]]
+	loops, keyLoops := 0, 0
+	ast.Inspect(g.Body, func(n ast.Node) bool {
+		switch v := n.(type) {
+		case *ast.ForStmt:
+			loops++
+		case *ast.RangeStmt:
+			loops++
+			if id, ok := ast.Unparen(v.X).(*ast.Ident); ok && g.Info().Uses[id] == param && v.Key != nil && v.Value == nil {
+				keyLoops++
+			}
+		}
+		return true
+	})
+	return param != nil && loops == 1 && keyLoops == 1
+}
+
+// gridImplements: the interface is one the grid type (the struct of modules/dagaz with the Grid field)
+// implements: the index seen through its interface, not some other interface of the package.
+func (r *Run) gridImplements(iface *types.Interface) bool {
+	pk := r.P.ByPth[pkgDagaz]
+	if pk == nil {
+		return false
+	}
+	sc := pk.Types.Scope()
+	for _, nm := range sc.Names() {
+		tn, ok := sc.Lookup(nm).(*types.TypeName)
+		if !ok {
+			continue
+		}
+		st, ok := tn.Type().Underlying().(*types.Struct)
+		if !ok {
+			continue
+		}
+		for i := 0; i < st.NumFields(); i++ {
+			if st.Field(i).Name() == "Grid" {
+				return types.Implements(types.NewPointer(tn.Type()), iface) || types.Implements(tn.Type(), iface)
+			}
+		}
+	}
+	return false
+}
+
 // resolveLocal: a local with a single definition stands for its definition (depth-limited).
 func resolveLocal(fn *Func, x ast.Expr, depth int) ast.Expr {
 	if id, ok := ast.Unparen(x).(*ast.Ident); ok && depth < 4 {
@@ -605,6 +654,14 @@ func (r *Run) regionDedupIn(root, fn *Func, judgeResult bool, count *int) map[*a
 				}
 				if call, ok := ast.Unparen(res).(*ast.CallExpr); ok {
 					resultCalls[call] = true
+					// the keys of a pointer-keyed map, through a generic helper of the repository (mapx.Keys(found))
+					if f, ok := calleeObj(info, call).(*types.Func); ok && len(call.Args) == 1 && isRepoPkg(f.Pkg()) && f.Pkg().Path() != pkgDagaz {
+						if g := r.P.Funcs[f]; g != nil && isKeysFunc(g) {
+							*count++
+							r.Check("Q3", site+":result-unique", isPtrKeyedMap(info.TypeOf(call.Args[0])), call.Pos(),
+								"the result of the region query is the key set of %s, which is not a map keyed by plane pointers: a plane may be returned once per cell it is registered in", types.ExprString(call.Args[0]))
+						}
+					}
 				}
 			}
 		}
@@ -874,7 +931,7 @@ func (r *Run) sampleForwarded() {
 			case *ast.CallExpr:
 				if f, ok := calleeObjRaw(info, v).(*types.Func); ok && f.Pkg() != nil && f.Pkg().Path() == pkgDagaz {
 					if sig := f.Type().(*types.Signature); sig.Recv() != nil {
-						if _, isIface := sig.Recv().Type().Underlying().(*types.Interface); isIface {
+						if iface, isIface := sig.Recv().Type().Underlying().(*types.Interface); isIface && r.gridImplements(iface) {
 							queried = f
 							if loopDepth > 0 {
 								inLoop = true
